@@ -255,7 +255,24 @@ def compute(prog, rep):
         by_count = bool(ar) and all(len(x[2]) == 1 and not any(y == G("numpy.pi") for y in walk(x)) for x in ar)
         rep.check(by_count, "C03.grid", f"{q}:angles", fn.where(), "direction grid enumerated by integer count",
                   f"the direction grid must be enumerated by an integer count; found {show(va)[:160]}")
-        oks = any(algebra.same(s, step_t) or algebra.same(s, ("neg", step_t)) for s in walk(va))
+        # angle(k+1) - angle(k), with the counter array replaced by 1 and by 0
+        oks = False
+        if len(ar) == 1:
+            from vstat.terms import subst as _subst
+            d_ = ("bin", "-", _subst(va, {ar[0]: ("const", 1)}), _subst(va, {ar[0]: ("const", 0)}))
+            oks = algebra.same(d_, step_t) or algebra.same(d_, ("neg", step_t))
         rep.check(oks, "C03.step", f"{q}:step", fn.where(), "successive angles differ by deg_step*pi/180", "the angular increment must be deg_step*pi/180")
+        # once around the circle: 360 / deg_step directions ...
+        cnt = ar[0][2][0] if ar else None
+        while cnt is not None and cnt[0] == "call" and cnt[1] in (G("int"), G("round"), G("numpy.round"), G("numpy.rint"), G("numpy.around")) and cnt[2]:
+            cnt = cnt[2][0]
+        full = ("bin", "/", ("const", 360), ("attr", SELF, "deg_step"))
+        okn = cnt is not None and (algebra.same(cnt, full) or cnt == ("bin", "//", ("const", 360), ("attr", SELF, "deg_step")))
+        rep.check(okn, "C03.grid", f"{q}:count", fn.where(), "360 / deg_step directions", f"the number of directions must be 360 / deg_step; found {show(cnt)[:80] if cnt else None}")
+        # ... and one vertex per direction: every neighbouring pair of the closed series is intersected, the wrap-around pair included
+        okp = pair is not None and pair[0] == (0, -1) and pair[1][0] == 1 and pair[1][1] in (None, 0)
+        rep.check(okp, "C03.wrap", f"{q}:all-pairs", site, "pairs (k, k+1) for every k of the closed series",
+                  f"with one direction per step the closed series has one element more than there are vertices: the lines must be paired as series[:-1] with "
+                  f"series[1:]; found the slices {pair}")
     else:
         rep.fail("C03.grid", f"{q}:angles", fn.where(), f"unrecognised construction of the direction grid: {show(va)[:160]}")
